@@ -155,3 +155,34 @@ def strftime_format_names(lam, ctx=None, modname=None):
 def norm_fmt(f):
     """%04Y is the zero-padded spelling of %Y on platforms that need it."""
     return f.replace('%04Y', '%Y')
+
+
+def option_defaults(fnode, key):
+    """The default(s) with which an option is read in a function: `<x>.get(key, D)` directly, or through a table of defaults that a loop
+    applies - `for option, default in (('a', 1), ...)` / `in {...}.items()` / `in dict(a=1, ...).items()` (the table also through a local
+    bound once to it) with `<x>.get(option, default)` in its body.  -> [D, ...]"""
+    from rules.stream import once_bound
+    out = []
+    for n in ast.walk(fnode):
+        if isinstance(n, ast.Call) and isinstance(n.func, ast.Attribute) and n.func.attr == 'get' and len(n.args) == 2 and \
+                isinstance(n.args[0], ast.Constant) and n.args[0].value == key:
+            out.append(n.args[1])
+        if isinstance(n, ast.For) and isinstance(n.target, ast.Tuple) and len(n.target.elts) == 2 and \
+                all(isinstance(t, ast.Name) for t in n.target.elts):
+            o, d = [t.id for t in n.target.elts]
+            if not any(isinstance(c, ast.Call) and isinstance(c.func, ast.Attribute) and c.func.attr == 'get' and
+                       [ast.unparse(a) for a in c.args] == [o, d] for c in ast.walk(n)):
+                continue
+            it = n.iter
+            if isinstance(it, ast.Call) and isinstance(it.func, ast.Attribute) and it.func.attr == 'items' and not it.args:
+                tab = once_bound(fnode, it.func.value)
+                if isinstance(tab, ast.Dict):
+                    out += [v for k, v in zip(tab.keys, tab.values) if isinstance(k, ast.Constant) and k.value == key]
+                elif isinstance(tab, ast.Call) and isinstance(tab.func, ast.Name) and tab.func.id == 'dict' and not tab.args:
+                    out += [k.value for k in tab.keywords if k.arg == key]
+            else:
+                tab = once_bound(fnode, it)
+                if isinstance(tab, (ast.Tuple, ast.List)):
+                    out += [e.elts[1] for e in tab.elts if isinstance(e, ast.Tuple) and len(e.elts) == 2
+                            and isinstance(e.elts[0], ast.Constant) and e.elts[0].value == key]
+    return out
